@@ -31,3 +31,11 @@ add("C06", "exploration", "bounded exhaustive enumeration of contents/keys/frami
     "Every content length 1..N x trailing-zero run x 5 keys x BF3/BEC2, 4 configurations through set_config, and a cipher failure injected at every call index of the write: stored payload must equal the reference AES-128-CBC ciphertext, read-back must return the content and flag, no secret needle may occur in binary or hex text, faulted writes must raise and leave no needle.",
     "Reference AES and layout parser trusted (self-checked); needles are high-entropy so accidental hits are negligible.",
     "E1+E3", "DESIGN.md 4/C06")
+add("C04", "fault_enumeration", "exhaustive fault enumeration: every byte position x replacement class, every prefix (crash point), suffixes, every key bit",
+    "For each authentic base file every byte position x 11 replacement classes, every proper prefix of binary and of text (stream and CRLF path), appended suffixes and every single-bit key change are read by the real reader; it must raise or return exactly the original components and session key.",
+    "Comments and the auth-block list are unauthenticated by design and only counted; base files are a fixed set of shapes.",
+    "E3", "DESIGN.md 4/C04")
+add("C05", "exploration", "bounded exhaustive enumeration of structured edit combinations (<=2 quick, <=3 thorough) with recomputed MACs, differential against an independent validator",
+    "Every single edit and every pair (thorough: triples) of ~30 structural edit operators at every entry position of each base file, MACs recomputed, is read by the real reader; accept/reject and returned content must agree with an independently written validator of the statement's rules.",
+    "The validator (vf/ref/layout.py) is the statement's rules as I read them; reference AES trusted after self-check.",
+    "E1", "DESIGN.md 4/C05")
